@@ -19,7 +19,6 @@ def proof_part(ctx, extra_dirs=()):
     """Builds Laws/Pipeline.vo (+ optional property-specific dirs), runs every enabled format module's body with this ctx,
     and returns (coverage_fragment, unit_results). Violations are reported by the modules through ctx."""
     pid = ctx.pid
-    ctx.srcgen()
     built, log = ctx.coq_build(["Laws/Pipeline.vo"])
     hyg = ctx.hygiene(["Base", "Laws"])
     laws_ok = built.get("Laws/Pipeline.vo", False) and not hyg
